@@ -140,6 +140,12 @@ def replay_case(case, targets, scales, motions, props, workdir, seed):
         lawpt = np.array([np.array(law8[t][anchor_of[t]], float) / 8.0 * H for t in range(len(targets))])
         apos = np.array([ref[anchor_of[t]] * H for t in range(len(targets))])
         if 'C01' in props and n >= 3:
+            if (seed + sc) % 2 == 0:
+                # the law must hold for the construction configuration also after the map was applied
+                # to other conformations
+                other = refmol.copy()
+                other.atoms_positions = ref * H @ _random_rotation(rng).T + rng.uniform(-1, 1, 3)
+                m(other)
             out = m(refmol).atoms_positions
             err = np.abs(out - lawpt).max(axis=1)
             nchecks += len(targets)
@@ -151,12 +157,17 @@ def replay_case(case, targets, scales, motions, props, workdir, seed):
         if 'C02' in props:
             mots = list(motions)
             extra = [(_random_rotation(rng), rng.uniform(-50, 50, 3) / H) for _ in range(2)]
-            for R, tau in mots + extra:
+            for mi, (R, tau) in enumerate(mots + extra):
                 R = np.array(R, float)
                 tau = np.array(tau, float)
-                ref2 = refmol.copy()
-                ref2.atoms_positions = (ref @ R.T + tau) * H
-                out2 = m(ref2).atoms_positions
+                if mi == 0:
+                    refmol.atoms_positions = (ref @ R.T + tau) * H     # the construction object itself, moved
+                    out2 = m(refmol).atoms_positions
+                    refmol.atoms_positions = ref * H
+                else:
+                    ref2 = refmol.copy()
+                    ref2.atoms_positions = (ref @ R.T + tau) * H
+                    out2 = m(ref2).atoms_positions
                 nchecks += len(targets)
                 if not np.isfinite(out2).all():
                     bad('finite', scale8=sc, motion=[R.tolist(), tau.tolist()])
@@ -227,9 +238,16 @@ def replay_case(case, targets, scales, motions, props, workdir, seed):
                         okc = False
                 if not okc:
                     continue
-                mol3 = refmol.copy()
-                mol3.atoms_positions = ref3
-                out3 = m(mol3).atoms_positions
+                if kind == 'lattice':
+                    # a new conformation of the very object the map was built from
+                    mol3 = refmol
+                    mol3.atoms_positions = ref3
+                    out3 = m(mol3).atoms_positions
+                    refmol.atoms_positions = ref * H
+                else:
+                    mol3 = refmol.copy()
+                    mol3.atoms_positions = ref3
+                    out3 = m(mol3).atoms_positions
                 nchecks += len(targets)
                 if not np.isfinite(out3).all():
                     bad('finite', scale8=sc, conformation=ref3.tolist())
@@ -316,13 +334,13 @@ def _classify(pos, anchors, triple):
         sn = _sin_at(pos, *triple[a])
         if sn < 1e-9:
             deg.append(a)
-        elif sn < 1e-3:
-            return None
+        elif sn < 5e-7:
+            return None       # between "collinear as written" and a determined frame: not generated
     return deg
 
 
-def random_reference(rng):
-    kind = rng.choice(['tree', 'tree', 'cyclic', 'one', 'two', 'collinear', 'axis'])
+def random_reference(rng, near_lo=-5.0):
+    kind = rng.choice(['tree', 'tree', 'cyclic', 'one', 'two', 'collinear', 'axis', 'near_collinear'])
     if kind == 'one':
         return kind, 1, [], rng.uniform(-1, 1, (1, 3))
     if kind == 'two':
@@ -344,6 +362,19 @@ def random_reference(rng):
             b = (int(min(i, j)) + 1, int(max(i, j)) + 1)
             if b not in bonds:
                 bonds.append(b)
+    if kind == 'near_collinear':
+        # almost, but not exactly, aligned frame neighbours: still a determined frame (generic class);
+        # sin(theta) log-uniform in [1e-5, 1e-3]
+        nb, anchors, triple = _graph_info(n, bonds)
+        a = anchors[int(rng.integers(0, len(anchors)))]
+        _, n1, n2 = triple[a]
+        d = _unit(rng)
+        perp = np.cross(d, _unit(rng))
+        perp /= np.linalg.norm(perp)
+        eps = 10 ** rng.uniform(near_lo, -3)
+        pos[n2] = pos[a] + d * rng.uniform(0.1, 0.3)
+        l1 = rng.uniform(0.1, 0.3) * rng.choice([-1, 1])
+        pos[n1] = pos[a] + l1 * (d + eps * perp)
     if kind in ('collinear', 'axis'):
         nb, anchors, triple = _graph_info(n, bonds)
         a = anchors[int(rng.integers(0, len(anchors)))]
@@ -387,7 +418,7 @@ def random_trace(seed, tid, workdir, props):
     from gaddlemaps import ExchangeMap
     rng = np.random.default_rng(seed)
     for _attempt in range(50):
-        kind, n, bonds, pos = random_reference(rng)
+        kind, n, bonds, pos = random_reference(rng, -6.0 if props == {'C02'} else -5.0)
         nb, anchors, triple = _graph_info(n, bonds)
         deg = _classify(pos, anchors, triple) if n >= 3 else []
         dmin = min([np.linalg.norm(pos[i] - pos[j]) for i in range(n) for j in range(i)] or [1.0])
@@ -453,7 +484,7 @@ def random_trace(seed, tid, workdir, props):
         for _ in range(2):
             for _try in range(30):
                 pos3 = pos + rng.normal(0, rng.choice([0.02, 0.1, 0.3]), pos.shape)
-                if _classify(pos3, anchors, triple) == []:
+                if _classify(pos3, anchors, triple) == [] and all(_sin_at(pos3, *triple[a]) >= 1e-3 for a in anchors):
                     break
             else:
                 continue
